@@ -36,7 +36,8 @@ def c03(ctx, replay):
     chunks = "whole,one" if ctx.quick() else "whole,one,rand"
     modes = "ct,nct" if ctx.quick() else "ct,nct,c_nct,s_nct"
     sizes = "120-130,4085-4105,8180-8200" if ctx.quick() else "120-130,4080-4112,8176-8208,12270-12300,32755-32780,65525-65545"
-    rep = ctx.drive("recv", ["-letters", lp, "-rows-off", off, "-rows-on", on, "-seed", ctx.seed, "-chunks", chunks, "-modes-on", modes, "-sizes", sizes], timeout=7200)
+    rep = ctx.drive("recv", ["-letters", lp, "-rows-off", off, "-rows-on", on, "-seed", ctx.seed, "-chunks", chunks, "-modes-on", modes, "-sizes", sizes,
+                            "-fuzz", 20000 if ctx.quick() else 400000], timeout=7200)
     ctx.absorb(rep)
     ctx.extra["exhaustive"] = True
     ctx.extra["rule"] = ("every frame stream of at most %d letters over the 43-letter alphabet of spec/WSRecv.tla "
@@ -380,6 +381,13 @@ def c10(ctx, replay):
     rec, out = ctx.tlc("WSTimeout", "WSTimeout.mutant.cfg", expect_ok=False, name="timeoutLoop-abstraction-without-rearm")
     if "is violated" not in out:
         raise Infra("model regression: the missing-re-arm mutant is no longer caught")
+    # the same discipline inside the concurrent endpoint model: a streaming writer and a pinger whose contexts the
+    # application may cancel at any moment, timeoutLoop firing on the armed context (Harmless, ArmedOnlyInFrame)
+    rec, _ = ctx.tlc("WSConn", "WSConn.ctx.cfg", name="WSConn-with-cancellable-contexts")
+    ctx.count_model(rec)
+    rec, out = ctx.tlc("WSConn", "WSConn.dev-NoRearm.cfg", expect_ok=False, name="WSConn-dev-NoRearm")
+    if "is violated" not in out:
+        raise Infra("model regression: WSConn no longer catches the missing hand-back of the write context")
     # inductive invariant by Apalache (programs of unbounded length); infrastructure trouble is not a verdict
     apa = {}
     adir = ctx.path("apa")
